@@ -89,13 +89,16 @@ Fixpoint phase2_g (g : graph) (l : list (call * task * resolved)) (st : rstate) 
   | (c, t, r) :: l' => do st1 <- update_one_g g t r st; phase2_g g l' st1
   end.
 
-Definition calc_next_g (g : graph) (b : batch) (st : rstate) : res (list (key * handle) * rstate) :=
-  if negb (batch_fits g b (rs_pending st)) then Err E_BAD_SCHEDULE else
+Definition resolve_phases_g (g : graph) (b : batch) (st : rstate) : res rstate :=
   do r1 <- phase1_g g b st;
   let '(l, st1) := r1 in
   do st2 <- phase2_g g l st1;
   do st3 <- phase3 g l st2;
-  let st3' := mark_resolved (map fst b) st3 in
+  Ok (mark_resolved (map fst b) st3).
+
+Definition calc_next_g (g : graph) (b : batch) (st : rstate) : res (list (key * handle) * rstate) :=
+  if negb (batch_fits g b (rs_pending st)) then Err E_BAD_SCHEDULE else
+  do st3' <- resolve_phases_g g b st;
   get_ready g (chan_keys g) st3'.
 
 Definition superstep_g (g : graph) (b : batch) (st : rstate) : res outcome :=
